@@ -44,8 +44,10 @@ def generate(rng, tier, index):
     # referred to the permittivity at the carrier frequency
     variant = specgen.choice(rng, ["plain", "plain", "graded", "dispersive"]) if kind == "uniform_plane" else "plain"
     grade = float(rng.uniform(1.02, 1.08)) ** (1 if rng.uniform() < 0.5 else -1)
-    lor = {"w0_over_wc": float(rng.uniform(2.0, 3.0)),  # resonance at >= 2 x carrier: measured <= 1e-5 on the unchanged tree (a pulse whose spectrum reaches a resonance at 1.6-1.7 x carrier sends 2-5e-4 backward)
-            "gamma_over_w0": float(rng.uniform(0.005, 0.02)),  # damped: an undamped pole keeps ringing at its own (coarsely resolved) resonance after the CW turn-on - 3.4e-4 measured "deps": float(rng.uniform(0.5, 2.0))}
+    # resonance at >= 2 x carrier and damped: measured <= 2e-5 on the unchanged tree. (A pulse whose spectrum reaches a resonance at
+    # 1.6-1.7 x carrier sends 2-5e-4 backward, and an undamped pole keeps ringing at its own coarsely resolved resonance after
+    # the CW turn-on, 3.4e-4 - both too close to the 1e-3 bound to be used.)
+    lor = {"w0_over_wc": float(rng.uniform(2.0, 3.0)), "gamma_over_w0": float(rng.uniform(0.005, 0.02)), "deps": float(rng.uniform(0.5, 2.0))}
     eps_inf = eps
     if variant == "graded":
         cpw_medium = float(rng.uniform(21, 28))
